@@ -29,6 +29,50 @@ CLAIMED = {
         text="Deductive: Probe.__init__/_enter/_exit/_emit/_make_rule and giving.SourceProxy.__init__/_push/__enter__/__exit__ (interpreted from the installed giving/gvn.py) are executed symbolically through a full life-cycle history; _push/__exit__ fan-out proved for any number of observers.",
         note=TRUST + "reactivex operators (reductions publish one value on completion, subscribe calls make once) are assumed; autotool used through its contract.",
         technique=TECH),
+    "C01": dict(category="proof", design_ref="DESIGN.md section 5/C01",
+        text="Deductive over program SCHEMAS: every visitor of PteraTransformer (and NodeTransformer.generic_visit from the stdlib source) is executed from its real body on ast nodes with opaque sub-terms, for every capture subset; obligations: erase(visit(s)) ~ s under the normaliser R1-R9 with side conditions, visitor does not raise, output compiles; interact returns the original value when nothing intercepts (unbounded in the number of handlers). Nine genuine defects are recorded as known findings, three were fixed.",
+        note=TRUST + "Trusted: the rewrite rules R1-R9 of specs/pyeffects.py (validated natively by replay/known cases), induction hypothesis on sub-terms (visit(hole)), CPython try/finally/with semantics. transform() orchestration (inspect/compile/exec) is out of reach.",
+        technique=TECH),
+    "C02": dict(category="proof", design_ref="DESIGN.md section 5/C02",
+        text="Deductive: events(visit(s)) = the instrumented bindings of s in order with the bound value, for every binding form and capture subset (schemas), + interact/WorkingFrame/Immediate.log/trigger/_call_with_snapshot/Capture contracts (unbounded handlers), Probe._emit and SourceProxy._push fan-out (any number of observers). Six genuine gaps are known findings, one fixed.",
+        note=TRUST + "binding forms are enumerated per syntactic form with opaque sub-terms; reduced capture-subset exploration for the root function schema (all/none/singletons/co-singletons).",
+        technique=TECH),
+    "C04": dict(category="proof", design_ref="DESIGN.md section 5/C04",
+        text="Deductive: interact (last non-ABSENT intercept in registration order wins, declining leaves the value, OverrideException for non-overridable bindings, log receives the substituted value) for any number of handlers; BaseAccumulator.intercept (tentative capture exposed then removed); schema obligations: the right-hand side occurs once as the 4th argument of the interact whose result is stored; overlay activation order (plus appends).",
+        note=TRUST + "reactivex pipeline of OverridableProbe assumed synchronous; override functions are opaque deterministic callbacks.",
+        technique=TECH),
+    "C06": dict(category="proof", design_ref="DESIGN.md section 5/C06",
+        text="Deductive over schemas: function wrapper (with proceed / try / except BaseException as #error / finally #exit, #enter first), loop brackets (#loop_v / #endloop_v in try/finally for every target variable), return/yield rewriting (#value, #yield, #receive with tags), for every capture subset. #value on fall-through is a known finding.",
+        note=TRUST + "CPython semantics of try/finally and generator finalisation are trusted: the bracket lemma follows from the proved output structure.",
+        technique=TECH),
+    "C10": dict(category="proof", design_ref="DESIGN.md section 5/C10",
+        text="Deductive: ExternalVariableCollector executed from its real body (NodeVisitor from the stdlib source) on every placement of a binding or read, compared with CPython's symtable; Call.problems/verify for ANY capture name (symbolic string); fits_selector; _tooler TypeError; autotool.",
+        note=TRUST + "CPython symtable is the scoping oracle; the info table assembly inside transform() is assumed (keys = used|assigned). Placement programs are enumerated per form.",
+        technique=TECH),
+    "C11": dict(category="proof", design_ref="DESIGN.md section 5/C11",
+        text="Deductive: match_tag/check_element (iff membership), tag-set algebra (commutative/associative/idempotent), get_tags, _TagFactory interning, should_instrument (per binding), annotation carried by each event (schemas), fits_selector generic branch, Call.problems tag branches.",
+        note=TRUST + "tag alphabet of 3 names (the code never inspects names); _ann on the listed string forms with re.split executed natively (bounded, labelled).",
+        technique=TECH),
+    "C13": dict(category="proof", design_ref="DESIGN.md section 5/C13",
+        text="Deductive: _resolve (method branch: underlying function through __wrapped__, receiver capture named after the first parameter, identity constraint for ANY receiver value incl. unhashable / custom __eq__), _dig, check_captures, InternedMC interning. The two receiver defects were fixed.",
+        note=TRUST + "inspect.getfullargspec and bound-method attribute forwarding are assumed (CPython); decorator chains of length <= 3 (bounded).",
+        technique=TECH),
+    "C14": dict(category="other", design_ref="DESIGN.md section 5/C14",
+        text="Deductive for the ptera side (refstring/_extract_info/_build_refstring per placement, dict_resolver slash branch, _apply informs the registry before the swap, variant functions marked discard) and for codefind.CodeRegistry.update_cache_entry/find_code interpreted from the installed source; the history-level claim is decided by a bounded native stand-in (5 placements x histories of length 3/5).",
+        note=TRUST + "transform()'s exec / audit-hook interplay with codefind and gc.get_referrers are out of the verifier's reach: bounded native histories, labelled; one nested-function defect is a known finding, one defect was fixed.",
+        technique=TECH + "; bounded native history enumeration for the registry interplay"),
+    "C15": dict(category="other", design_ref="DESIGN.md section 5/C15",
+        text="Deductive: each documented equivalence is run through the REAL lexer, Parser.process and evaluation actions inside the verifier for every operand form of a small grammar (564 instances) and must yield the same object; interning proved for symbolic field values; whitespace invariance by a bounded native stand-in.",
+        note=TRUST + "operand grammar and nesting depth are bounded (labelled); operand names are concrete representatives; re.match executed natively.",
+        technique=TECH + " on token skeletons; bounded operand grammar"),
+    "C16": dict(category="proof", design_ref="DESIGN.md section 5/C16",
+        text="Deductive: interact never returns/logs ABSENT and raises PteraNameError(varname, fn) exactly when the value after interception is the marker (any number of handlers); schema obligations: the marker only flows into the 4th argument of an interact call; externals prelude. Four genuine leaks/eager-fetch defects are known findings.",
+        note=TRUST + "as C01 for the schema part.",
+        technique=TECH),
+    "C18": dict(category="other", design_ref="DESIGN.md section 5/C18",
+        text="Deductive: every evaluation action for every combination of operand kinds in both contexts (over-approximating all parse trees) returns a selector/list or raises SyntaxError; Evaluator dispatch; _select/_guarantee_call; Call.problems/verify for any name; probe construction refusals. Lexer/Parser.process termination and error class: bounded native stand-in (all strings <= 3/4 symbols + seeded longer ones). 36+3 internal-error inputs were fixed.",
+        note=TRUST + "lexer regexes and Parser.process on arbitrary token lists are only covered by the bounded native stand-in (labelled).",
+        technique=TECH + "; bounded native string enumeration for lexer/parser"),
 }
 NOT_YET = {
 }
